@@ -35,14 +35,22 @@ macro_rules! any_harness {
         #[kani::stub(<*mut u8>::add, shim_add)]
         fn $name() {
             unsafe {
-                let (f, _orig) = setup_any($page, 3, 4);
+                let (f, orig) = setup_any($page, 3, 4);
                 sim::S.NJ_ACT = 1;
                 let g = PatchArm64::replace_function_return_boolean(fp(f), kani::any());
                 after_install(f);
                 kani::cover!(sim::S.N_MMAP == 3 && sim::S.N_MUNMAP == 2, "COVER: two placements rejected and given back");
                 kani::cover!(sim::S.N_MMAP == 3 && sim::S.N_MMAP_OK == 1, "COVER: two mmap failures");
                 kani::cover!(sim::S.N_MMAP == 1, "COVER: first placement accepted");
-                core::mem::forget(g);
+                // the guard built on the real allocator's placement restores everything it overwrote
+                drop(g);
+                let mut k = 0;
+                while k < 16 {
+                    assert!(sim::ENT[0].bytes[k] == orig[k], "VERIF[C02,C03]: entry bytes differ from the original after drop (placement chosen by the real allocator)");
+                    k += 1;
+                }
+                assert!(sim::live_jits() == 0, "VERIF[C12]: trampoline placed by the real allocator not released on drop");
+                assert!(sim::all_clean(), "VERIF[C17]: restored bytes are not covered by a later flush");
             }
         }
     };
@@ -60,7 +68,7 @@ macro_rules! layout_harness {
         #[kani::stub(<*mut u8>::add, shim_add)]
         fn $name() {
             unsafe {
-                let (f, _orig) = setup_layout($page, 4, $slots);
+                let (f, orig) = setup_layout($page, 4, $slots);
                 let g = PatchArm64::replace_function_return_boolean(fp(f), kani::any());
                 // reaching this point: the installation returned
                 assert!(sim::S.LAYOUT != 1, "VERIF[C11]: the installation returned although no page within reach was free");
@@ -71,7 +79,15 @@ macro_rules! layout_harness {
                 kani::cover!(sim::S.LAYOUT == 2 && sim::S.LAYOUT_FREE == sim::S.LAYOUT_HI, "COVER: the free page is the last page of the window");
                 kani::cover!(sim::S.LAYOUT == 2 && sim::S.N_MUNMAP > 0, "COVER: far fallbacks were rejected and given back before the free page was found");
                 kani::cover!(f < crate::verif::VARIANT_RANGE, "COVER: target below 128 MiB (window clipped at zero)");
-                core::mem::forget(g);
+                // the guard built on the real allocator's placement restores everything it overwrote
+                drop(g);
+                let mut k = 0;
+                while k < 16 {
+                    assert!(sim::ENT[0].bytes[k] == orig[k], "VERIF[C02,C03]: entry bytes differ from the original after drop (placement chosen by the real allocator)");
+                    k += 1;
+                }
+                assert!(sim::live_jits() == 0, "VERIF[C12]: trampoline placed by the real allocator not released on drop");
+                assert!(sim::all_clean(), "VERIF[C17]: restored bytes are not covered by a later flush");
             }
         }
     };
